@@ -433,7 +433,8 @@ func (cs *contractSet) parseFile(root, file string) error {
 		case "at":
 			// at <site> [before|after] let name = expr
 			// at <site> [before|after] assert [tags] label: expr
-			if f := strings.Fields(rest); len(f) >= 3 && (f[1] == "let" || f[1] == "assert" || ((f[1] == "before" || f[1] == "after") && (f[2] == "let" || f[2] == "assert"))) {
+			isItem := func(w string) bool { return w == "let" || w == "assert" || w == "check" }
+			if f := strings.Fields(rest); len(f) >= 3 && (isItem(f[1]) || ((f[1] == "before" || f[1] == "after") && isItem(f[2]))) {
 				gs := &GhostStmt{Site: f[0], When: "after"}
 				k := 1
 				if f[1] == "before" || f[1] == "after" {
